@@ -132,15 +132,13 @@ class SerializerBase(object):
         if type(obj) in (set, dict, tuple, list):
             # we use a ValueError to mirror the exception type returned by serpent and other serializers
             raise ValueError("can't serialize type " + str(obj.__class__) + " into a dict")
-        if hasattr(obj, "_pyroDaemon"):
-            obj._pyroDaemon = None
         if isinstance(obj, BaseException):
             # special case for exceptions
             return {
                 "__class__": obj.__class__.__module__ + "." + obj.__class__.__name__,
                 "__exception__": True,
                 "args": obj.args,
-                "attributes": vars(obj)  # add custom exception attributes
+                "attributes": cls.__without_daemon(vars(obj))  # add custom exception attributes
             }
         # note: python 3.11+ object itself now has __getstate__
         has_own_getstate = (
@@ -150,9 +148,9 @@ class SerializerBase(object):
         if has_own_getstate:
             value = obj.__getstate__()
             if isinstance(value, dict):
-                return value
+                return cls.__without_daemon(value)
         try:
-            value = dict(vars(obj))  # make sure we can serialize anything that resembles a dict
+            value = cls.__without_daemon(dict(vars(obj)))  # make sure we can serialize anything that resembles a dict
             value["__class__"] = obj.__class__.__module__ + "." + obj.__class__.__name__
             return value
         except TypeError:
@@ -167,6 +165,14 @@ class SerializerBase(object):
                 raise errors.SerializeError("don't know how to serialize class " + str(obj.__class__) +
                                             " using serializer " + str(cls.__name__) +
                                             ". Give it vars() or an appropriate __getstate__")
+
+    @staticmethod
+    def __without_daemon(state):
+        """the daemon an object is registered in never travels with it (the object itself is left untouched)"""
+        if state.get("_pyroDaemon") is not None:
+            state = dict(state)
+            state["_pyroDaemon"] = None
+        return state
 
     @classmethod
     def dict_to_class(cls, data):
